@@ -80,6 +80,9 @@ func (u *Unit) lookupName(name string, env *Env, sc *specCtx) (Value, bool) {
 			return v, true
 		}
 	}
+	if v, ok := u.traceName(env, name); ok {
+		return v, true
+	}
 	if sc.names != nil {
 		if v, ok := sc.names[name]; ok {
 			return v, true
